@@ -465,6 +465,31 @@ func Extremes() []Item {
 			out = append(out, Item{T: t, Base: t, Pos: "extreme", Vals: vals})
 		}
 	}
+	// maps whose key / value types are larger than 1 KiB (the map codec keeps a zero value of each;
+	// beyond 1 KiB it allocates one) - with a zero key, a zero value and ordinary entries
+	{
+		kf := make([]F, 140)
+		vf := make([]F, 70)
+		for i := range kf {
+			kf[i] = F{Name: "K" + itoa(i), Index: i + 1, T: L(KInt)}
+		}
+		for i := range vf {
+			vf[i] = F{Name: "V" + itoa(i), Index: i + 1, T: L(KString)}
+		}
+		bigK, bigV := Struct(kf...), Struct(vf...)
+		zk, zv := Zero(bigK), Zero(bigV)
+		k1, v1 := Zero(bigK), Zero(bigV)
+		k1.E = append([]V(nil), k1.E...)
+		v1.E = append([]V(nil), v1.E...)
+		k1.E[0], k1.E[139] = V{U: 5}, V{U: uint64(^uint64(0))}
+		v1.E[0], v1.E[69] = V{S: "first"}, V{S: "last"}
+		for _, opt := range []string{"", "proto"} {
+			t := Struct(FldO(1, opt, Map(bigK, bigV)), F{Name: "Z", Index: 9, T: L(KInt)})
+			out = append(out, Item{T: t, Base: bigV, Opt: opt, Pos: "extreme", Vals: []V{
+				{E: []V{{Nil: true}, {}}}, {E: []V{{E: []V{zk, zv}}, {U: 1}}}, {E: []V{{E: []V{zk, v1}}, {U: 1}}}, {E: []V{{E: []V{k1, zv}}, {U: 1}}}, {E: []V{{E: []V{k1, v1, zk, v1}}, {U: 1}}},
+			}})
+		}
+	}
 	// pointer-shaped towers: single-field structs around a pointer or map, 1..4 levels - Go keeps
 	// such values directly in the interface data word, which matters when they are marshalled by value
 	for depth := 1; depth <= 4; depth++ {
